@@ -27,7 +27,7 @@ func init() {
 		Run:         runC03,
 		CaseTimeout: 0,
 		Rule: "case = (small configuration so that files roll over, key universe, single-threaded history of 30-80 calls with explicit Flush, index GC, primary GC, Close and reopen). The directory is imaged at EVERY hook point reached inside Flush/GC/Close/Open calls (hooks sit before each file-system mutation) and after every call; between consecutive images torn variants are synthesised (appended regions cut at 1,2,3,4,5,7,8,12,13,middle,n-5..n-1 bytes and around every record boundary - thorough: every byte for regions <= 512 B; rewritten files emptied and cut). Every image/variant is recovered: OpenStore must succeed, every key must read durable-or-acknowledged state, then the store is used further (puts that roll the files current at the crash, flushes, 2 primary + 2 index GC cycles, Close, reopen) under the C01/C04 oracle with fsck. " +
-			"non-trivial iff the case produced images inside a Flush with pending updates AND inside a GC cycle or Close; distinct = distinct hash of (hook, variant kind, image content). Interleaved family (case index mod 4 == 3): crash states in which a flush AND a collector are both mid-way: a GC cycle (index or primary) is parked at one of its lock-free step points, a Flush with pending updates is started and parked at one of its own step points (pool swapped / before the log write / after it / between primary, index and freelist), the collector is released and runs to its end while the flush stays parked, then the flush finishes; only one of the two ever runs at a time, so the image taken at every hook point is a true point-in-time state; each is recovered under the same oracle",
+			"non-trivial iff the case produced images inside a Flush with pending updates AND inside a GC cycle or Close; distinct = distinct hash of (hook, variant kind, image content). Interleaved family (case index mod 4 == 3): crash states in which a flush AND a collector are both mid-way: a GC cycle (index or primary) is parked at one of its lock-free step points, a Flush with pending updates is started and parked at one of its own step points (pool swapped / before the log write / after it / between primary, index and freelist), the collector is released and runs to its end while the flush stays parked, then the flush finishes; only one of the two ever runs at a time, so the image taken at every hook point is a true point-in-time state; each is recovered under the same oracle. Legacy family (case index mod 16 == 9): the crash happens inside the Open that converts a legacy single-file store (generated as in C10, without dangling entries); every hook point of the conversion and its torn variants is recovered by opening again and must show the legacy store's contents, also after Flush and a rescanning reopen",
 		Assumptions: []string{
 			"process-crash model: everything handed to the kernel survives, user-space buffers are lost; the store uses no mmap",
 			"crash points are those of the executed single-threaded histories (flusher not started, collectors idle)",
@@ -178,6 +178,20 @@ func writerOp(k string) bool {
 func runC03(c run.Ctx) *core.CaseResult {
 	if c.Index%4 == 3 {
 		return runC03Interleaved(c)
+	}
+	if c.Index%16 == 9 {
+		// crash inside the Open that converts a legacy-format store: every hook point of the
+		// conversion (and torn variants) is recovered by opening again; the contents must be the
+		// legacy store's (its last completed Close). Stores whose index names missing primary data
+		// (trigger class of known finding C10-F1) are left to C10.
+		for k := 0; k < 40; k++ {
+			cc := c10Gen(run.Ctx{Prop: "C03legacy", Seed: c.Seed, Index: c.Index*64 + k, Tier: c.Tier}, true)
+			if cc.ls.Dangling == 0 {
+				res := c10CrashExplore(c, cc)
+				res.Add("legacy_upgrade_crash_cases", 1)
+				return res
+			}
+		}
 	}
 	cfg, u, ops, r := c03Case(c)
 	res := &core.CaseResult{ID: c.ID(), Verdict: "held"}
